@@ -25,7 +25,10 @@ RULE = ("scenes from the seed: 4..6 (thorough 4..8) cells per axis (>= 2*thickne
         "(simulate_boundaries=False) from a s1 + b s2 with sources vs the Lean model; (4) compute_energy / "
         "compute_poynting_flux vs model; (5) step_cpml cells vs model. One amplitude scene per run (thorough: 5) has a plane "
         "source plus a small Lorentz / Drude block elsewhere in the volume (dispersive H-side temporal filter of the TFSF "
-        "source; oracle-only, no model comparison). Removal scenes (always two in quick: a TILTED magnetic "
+        "source; oracle-only, no model comparison). Placed-factor scene (always one in quick, thorough 4): UniformPlaneSource and GaussianPlaneSource "
+        "with normalize_by_energy=False and a UniformPlaneSource with the default normalisation get their "
+        "static_amplitude_factor AT CONSTRUCTION; three separate placements at f0 (negative for odd seeds), -f0, 2 f0: fields "
+        "and Field/Phasor records must be exactly -1x / 2x (sign included), energy 1x / 4x. Removal scenes (always two in quick: a TILTED magnetic "
         "and a TILTED electric PointDipoleSource, azimuth and elevation != 0, plus a neighbouring second source whose field "
         "reaches the dipole cell): three SEPARATE placements (source 0 only, source 1 only, both) run through run_fdtd, fields "
         "and Field/Phasor records of the joint run = sum of the partial runs; and forward() from a non-zero state with the "
@@ -105,8 +108,9 @@ def _switch(f, name):
     return {"default": f.OnOffSwitch(), "start": f.OnOffSwitch(start_time=2.5e-16), "interval": f.OnOffSwitch(interval=2)}[name]
 
 
-def make_objects(c, vol, only=None):
-    """sources (all, or only the indices in `only` — the others are really absent from the object list) + detectors"""
+def make_objects(c, vol, only=None, saf=1.0):
+    """`saf`: static_amplitude_factor given to every source AT CONSTRUCTION (placement-time factor).
+    sources (all, or only the indices in `only` — the others are really absent from the object list) + detectors"""
     j = Y.J()
     f, jnp = j["fdtdx"], j["jnp"]
     objs, cons = [], []
@@ -127,7 +131,7 @@ def make_objects(c, vol, only=None):
             pol[(ax + 1 + s["pol"] % 2) % 3] = 1.0
             o = HardConstantAmplitudePlanceSource(partial_grid_shape=tuple(shp), wave_character=wave, direction=s["direction"],
                                                   fixed_E_polarization_vector=tuple(pol), amplitude=0.8, switch=_switch(f, s["switch"]),
-                                                  static_amplitude_factor=1.0, name=f"src{i}")
+                                                  static_amplitude_factor=float(saf), name=f"src{i}")
             if uniform:
                 cons.append(o.set_grid_coordinates(axes=ax, sides="-", coordinates=s["pos"][ax]))
             else:
@@ -139,7 +143,8 @@ def make_objects(c, vol, only=None):
             pol[(ax + 1 + s["pol"] % 2) % 3] = 1.0
             kw = dict(partial_grid_shape=tuple(shp), wave_character=wave, direction=s["direction"],
                       fixed_E_polarization_vector=tuple(pol), temporal_profile=prof, switch=_switch(f, s["switch"]),
-                      static_amplitude_factor=1.0, name=f"src{i}")
+                      normalize_by_energy=bool(s.get("normalize", True)),
+                      static_amplitude_factor=float(saf), name=f"src{i}")
             o = f.UniformPlaneSource(**kw) if s["kind"] == "uniform" else f.GaussianPlaneSource(radius=1.2e-7, **kw)
             if uniform:
                 cons.append(o.set_grid_coordinates(axes=ax, sides="-", coordinates=s["pos"][ax]))
@@ -148,7 +153,7 @@ def make_objects(c, vol, only=None):
         else:
             o = f.PointDipoleSource(partial_grid_shape=(1, 1, 1), wave_character=wave, polarization=s["pol"],
                                     source_type="electric" if s["kind"] == "dipole_e" else "magnetic",
-                                    temporal_profile=prof, switch=_switch(f, s["switch"]), static_amplitude_factor=1.0,
+                                    temporal_profile=prof, switch=_switch(f, s["switch"]), static_amplitude_factor=float(saf),
                                     azimuth_angle=float(s.get("azimuth", 0.0)), elevation_angle=float(s.get("elevation", 0.0)),
                                     name=f"src{i}")
             if uniform:
@@ -236,11 +241,11 @@ def _dt(c):
         return None
 
 
-def scene_of(c, complex_fields=None, only=None):
+def scene_of(c, complex_fields=None, only=None, saf=1.0):
     dt = _dt(c)
     time = (c["steps"] + 0.01) * dt if dt else 1e-15
     sc = Y.build(c["shape"], c["faces"], widths=c["widths"], pml_thickness=c["pml_thickness"], time=time,
-                 gradient=c["gradient"], extra_fn=lambda vol: make_objects(c, vol, only), complex_fields=complex_fields)
+                 gradient=c["gradient"], extra_fn=lambda vol: make_objects(c, vol, only, saf), complex_fields=complex_fields)
     return sc
 
 
@@ -426,6 +431,76 @@ def gen_removal_case(rng, thorough, which, force=None):
     if force:
         c.update(force)
     return c
+
+
+# ---------------------------------------------------------------- factor given at PLACEMENT (separate placements)
+def placed_forced(seed, k=0):
+    """plane sources whose static_amplitude_factor is set at construction: UniformPlaneSource without energy normalisation,
+    GaussianPlaneSource without energy normalisation, UniformPlaneSource with the default normalisation; the whole scene
+    is placed at the common factor f0 (negative for odd seed + k), at -f0 and at 2 f0"""
+    f0 = [0.8, -1.3, 1.7, -0.6][(seed + k) % 4]
+    ax = (seed + k) % 3
+    a1, a2 = (ax + 1) % 3, (ax + 2) % 3
+    shape = [5, 5, 5]
+    shape[ax] = 8
+    faces = {}
+    for a in range(3):
+        faces[Y.FACES[2 * a]] = faces[Y.FACES[2 * a + 1]] = "pml" if a == ax else "periodic"
+    def pos(a, v):
+        p = [2, 2, 2]
+        p[a] = v
+        return p
+    srcs = [{"kind": "uniform", "axis": ax, "direction": "+", "profile": "cw", "switch": "default", "pol": seed % 2, "pos": pos(ax, 2), "normalize": False},
+            {"kind": "gauss", "axis": ax, "direction": "-", "profile": "pulse", "switch": "default", "pol": (seed + 1) % 2, "pos": pos(ax, 5), "normalize": False},
+            {"kind": "uniform", "axis": a1, "direction": "-" if k % 2 else "+", "profile": "cw", "switch": "default", "pol": 0, "pos": pos(a1, 1), "normalize": True}]
+    dets = [{"kind": "field", "exact": False, "switch": "default", "reduce": False, "region": "full", "components": None},
+            {"kind": "phasor", "exact": True, "switch": "default", "reduce": True, "region": "full", "components": None},
+            {"kind": "energy", "exact": True, "switch": "default", "reduce": True, "region": "full", "slices": False}]
+    return dict(mode="placed", shape=shape, faces=faces, pml_thickness=2, widths=None, sources=srcs, detectors=dets, steps=8, gradient=None,
+                eps_tier=1, sig_e=False, f0=f0, dispersive=None)
+
+
+def placed_oracle(c, info=None):
+    """exact linearity (including the sign) in a factor that is given to the sources at construction"""
+    j = Y.J()
+    f, jax = j["fdtdx"], j["jax"]
+    R = []
+    for mult in (1.0, -1.0, 2.0):
+        sc = scene_of(c, saf=mult * c["f0"])
+        inv_eps, sig_e, _ = materials(c, sc)
+        arrays = Y.with_state(sc, inv_eps=inv_eps, sig_e=sig_e)
+        st = f.run_fdtd(arrays=arrays, objects=sc.objects, config=sc.config, key=jax.random.PRNGKey(0), show_progress=False)
+        R.append({"E": np.asarray(st[1].fields.E), "H": np.asarray(st[1].fields.H),
+                  "det": {k: {kk: np.asarray(vv) for kk, vv in v.items()} for k, v in st[1].detector_states.items()}})
+    R1, Rm, R2 = R
+    if info is not None:
+        info["on"] = _mx(R1["E"]) > 0
+    for nm in ("E", "H"):
+        for mult, Rx in ((-1.0, Rm), (2.0, R2)):
+            e = _rel(Rx[nm], mult * R1[nm], abs(mult) * _mx(R1[nm]))
+            if not e <= TOL:
+                return (f"final {nm} of the scene placed with static_amplitude_factor {mult}*{c['f0']} differs from {mult} x the scene placed "
+                        f"with {c['f0']} by {e:.3e} (relative)")
+    for name, st in R1["det"].items():
+        kind = name.split("_")[1]
+        for key, v1 in st.items():
+            for mult, Rx in ((-1.0, Rm), (2.0, R2)):
+                fac = mult if kind in ("field", "phasor") else mult * mult
+                e = _rel(Rx["det"][name][key], fac * v1, abs(fac) * _mx(v1))
+                if not e <= TOL:
+                    return f"{kind} record {name}/{key} placed with factor {mult}*{c['f0']} is not {fac} x the record placed with {c['f0']}: {e:.3e}"
+    return None
+
+
+def one_placed_case(ctx, c, sample=False):
+    info = {}
+    d = placed_oracle(c, info)
+    ctx.impl_property_evals += 1
+    ctx.case(sample={k: c[k] for k in ("mode", "shape", "faces", "sources", "f0", "seed")} if sample else None,
+             nontrivial=("placed", tuple(c["shape"]), c["seed"]) if info.get("on") else None, mode="placed-factor",
+             f0_sign="negative" if c["f0"] < 0 else "positive", unnormalised_plane_sources=sum(1 for s in c["sources"] if not s.get("normalize", True)))
+    if d:
+        ctx.violation(c, d)
 
 
 def one_removal_case(ctx, c, sample=False):
@@ -633,11 +708,16 @@ def run(ctx):
         rem.append(gen_removal_case(ctx.rng, True, ctx.rng.choice(["m", "e"])))
     for i, c in enumerate(rem):
         one_removal_case(ctx, c, sample=i == 0)
+    # factor given at construction, separate placements at f0, -f0, 2 f0
+    for k in range(ctx.scale(1, 4)):
+        one_placed_case(ctx, gen_case(ctx.rng, ctx.thorough, placed_forced(ctx.seed, k)), sample=False)
 
 
 def property_fails(c):
     if c.get("mode") == "removal":
         return removal_oracle(c)
+    if c.get("mode") == "placed":
+        return placed_oracle(c)
     sc = scene_of(c)
     d = run_oracle(c, sc)
     if d:
@@ -655,6 +735,13 @@ def search(ctx, hints):
                 ctx.violation(h, d)
                 return
     rng = ctx.rng.fork()
+    for k in range(4):
+        c = gen_case(rng, False, placed_forced(ctx.seed, k))
+        ctx.impl_property_evals += 1
+        d = property_fails(c)
+        if d:
+            ctx.violation(c, d)
+            return
     for i in range(ctx.scale(4, 12)):
         c = gen_removal_case(rng, i >= 2, "m" if i % 2 == 0 else "e")
         ctx.impl_property_evals += 1
